@@ -437,6 +437,9 @@ func (ix *idxEngine) resultLenLowerBound(call *ssa.Call) (int64, bool) { return 
 func (ix *idxEngine) callMayWrite(fn *ssa.Function, ci ssa.CallInstruction, loc memLoc, localSlice ssa.Value) bool {
 	cc := ci.Common()
 	if loc.kind == "elem" {
+		if localSlice == nil {
+			return true // a slice this function did not make: any call may write its elements
+		}
 		for _, a := range cc.Args {
 			if localSlice != nil && sameSlice(a, localSlice) {
 				return true
